@@ -121,3 +121,16 @@ Theorem C10_no_lasting_effect_is_not_vacuous :
       /\ r_force_eom (snd (run_core example_cfg core_init (hostile_example ++ map Tick (ts1 ++ ts2)))) = None).
 Proof. exact (conj hostile_example_is_not_calm no_lasting_effect_premises_hold). Qed.
 Print Assumptions C10_no_lasting_effect_is_not_vacuous.
+
+(** known finding F12 (model witness): the bit majority of three different header bursts — two earlier,
+    complete, different headers still in the history and the first burst of a new transmission — is a
+    text that none of them carried, and here it fits the header grammar, so it is accepted *)
+From Sameold Require Import Proofs.ChimeraP.
+Theorem C10_F12_refuted :
+  match combine [f12_b1; f12_b2; f12_b3] with
+  | Some (Ok (SOM h)) => h_text h = f12_chimera
+  | _ => False
+  end
+  /\ f12_chimera <> f12_b1 /\ f12_chimera <> f12_b2 /\ f12_chimera <> f12_b3.
+Proof. exact F12_three_different_headers_vote_to_a_fourth. Qed.
+Print Assumptions C10_F12_refuted.
